@@ -17,36 +17,75 @@ META = {
 import os
 TMO = int(os.environ.get("C07_TIMEOUT", "900"))
 HOOK = [(r"memhook\._free$", ["vf_free"]), (r"memhook\._calloc$", ["vf_calloc"]), (r"memhook\._malloc$", ["vf_malloc"])]
-SYM_T = ["errno left by callbacks (int)", "M_CTX_USERDATA_AUTOFREE bit", "M_CTX_NAME_AUTOFREE bit (name not duplicated)",
-         "auto-free bit of the fresh context", "quit code (uint8, LOOPED jobs)"]
+SYM_T = ["errno left by callbacks (int)", "module user data identity", "quit code (uint8, LOOPED jobs)"]
 
 
-def teardown(nmod, st, persist, cndup=0, mndup=0, looped=0, drop=0, cb=0, leak=False):
+def teardown(nmod, st, persist, cndup=0, mndup=0, looped=0, drop=0, cb=0, udauto=0, nauto=0, ud2auto=0, leak=False):
     st = (list(st) + [0, 0, 0])[:3]
-    name = "C07.teardown.n%d.s%s.p%d.cd%d.md%d.l%d.d%d.cb%d" % (nmod, "".join(str(x) for x in st[:nmod]) or "-", persist,
-                                                              cndup, mndup, looped, drop, cb)
+    name = "C07.teardown.n%d.s%s.p%d.cd%d.md%d.l%d.d%d.cb%d.f%d%d%d" % (nmod, "".join(str(x) for x in st[:nmod]) or "-", persist,
+                                                                     cndup, mndup, looped, drop, cb, udauto, nauto, ud2auto)
     d = {"NMOD": nmod, "ST0": st[0], "ST1": st[1], "ST2": st[2], "PERSIST": persist, "CNDUP": cndup, "MNDUP": mndup,
-         "LOOPED": looped, "DROP": drop, "CB": cb}
+         "LOOPED": looped, "DROP": drop, "CB": cb, "UDAUTO": udauto, "NAUTO": nauto, "UD2AUTO": ud2auto}
     return l2_job(name, "l2/c07_teardown.c", defines=d, symbolic=SYM_T, bounds=name, unwind=13, fp_extra=HOOK, leak=leak, timeout=TMO)
 
 
-SYM_A = ["errno left by callbacks (int)", "M_CTX_USERDATA_AUTOFREE bit", "module user data identity"]
+SYM_A = ["errno left by callbacks (int)", "module user data identity"]
 MODES = {0: "idle", 1: "instart", 2: "dispatch", 3: "loop", 4: "replace", 5: "instop", 6: "lateadd"}
 
 
-def autorel(mode, nmod, persist, keep=1, st=1, leak=False):
-    name = "C07.autorel.%s.n%d.p%d.k%d.s%d" % (MODES[mode], nmod, persist, keep, st)
-    d = {"MODE": mode, "NMOD": nmod, "PERSIST": persist, "KEEP": keep, "ST": st}
+def autorel(mode, nmod, persist, keep=1, st=1, udauto=0, leak=False):
+    name = "C07.autorel.%s.n%d.p%d.k%d.s%d.f%d" % (MODES[mode], nmod, persist, keep, st, udauto)
+    d = {"MODE": mode, "NMOD": nmod, "PERSIST": persist, "KEEP": keep, "ST": st, "UDAUTO": udauto}
     return l2_job(name, "l2/c07_autorelease.c", defines=d, symbolic=SYM_A, bounds=name, unwind=13, fp_extra=HOOK, leak=leak, timeout=TMO)
+
+
+SYM_G = {0: ["refused flag word (uint, all 32 bits)", "refused user data", "flag word used inside the handler", "quit code", "errno left by handlers"],
+         1: ["quit code (uint8)", "errno left by handlers (int)"],
+         2: ["flag word of the refused module registration (uint, all bits)", "quit code", "errno left by handlers"],
+         3: ["descriptor, source flags, timer period, signal, pid, task id, rate, burst, batch size, batch timeout, unstash count, "
+             "quit code, tick period, module flag word (all unconstrained)"],
+         4: ["refused flag word (uint)", "refused user data"],
+         5: ["quit code, tick period, module flag word (all unconstrained)"]}
+GNAMES = {0: "second", 1: "looping", 2: "finalize", 3: "nocontext", 4: "twothreads", 5: "nokey"}
+
+
+def guard(g, bst=1, loop0=0):
+    name = "C07.guard.%s" % GNAMES[g] + (".b%d.l%d" % (bst, loop0) if g == 3 else "")
+    j = l2_job(name, "l2/c07_guards.c", defines={"G": g, "BST": bst, "LOOP0": loop0}, symbolic=SYM_G[g], bounds=name, unwind=13,
+               fp_extra=HOOK, task_fns=["my_task"], extra_evt=["other_evt"], timeout=TMO,
+               unwindset={"vf_main.0": 66} if g == 5 else None)
+    if g == 5:
+        # the shared OS model, included unchanged by a wrapper that adds validity tracking of the thread-specific key
+        j.model = None
+        j.extra_harness.append("l2/c07_os_model.c")
+    return j
 
 
 def jobs(tier):
     js = []
-    js.append(teardown(2, (1, 0), 1))
-    for mode in range(7):
-        js.append(autorel(mode, 2 if mode in (5,) else 1, 0))
-    js.append(autorel(2, 2, 0, keep=0))
-    js.append(autorel(0, 2, 1, keep=0, st=2))
+    if tier == "quick":
+        T = [  # nmod, states, persist, kwargs
+            (0, (), 0, dict(udauto=1, nauto=1, ud2auto=1)), (0, (), 1, dict(cndup=1, looped=1)),
+            (1, (1,), 0, dict()), (1, (0,), 1, dict(udauto=1)), (1, (2,), 0, dict(drop=1)),
+            (2, (1, 0), 1, dict()), (2, (2, 3), 0, dict(mndup=1)), (2, (1, 2), 0, dict(drop=1, cndup=1)),
+            (2, (1, 1), 0, dict(cb=1)), (2, (1, 2), 0, dict(cb=2)), (2, (0, 2), 1, dict(looped=1, nauto=1)),
+            (3, (1, 2, 3), 0, dict(looped=1, mndup=1, cndup=1)), (3, (0, 1, 2), 1, dict(udauto=1)),
+        ]
+        A = [  # mode, nmod, persist, kwargs
+            (0, 1, 0, dict()), (0, 2, 1, dict(keep=0, st=2)), (0, 2, 0, dict(st=0, udauto=1)), (1, 1, 0, dict()), (1, 2, 1, dict(keep=0)),
+            (2, 1, 0, dict()), (2, 2, 0, dict(keep=0)), (2, 1, 1, dict()), (3, 1, 0, dict(keep=0, udauto=1)), (3, 2, 0, dict()),
+            (4, 1, 0, dict()), (4, 1, 0, dict(keep=0)), (4, 1, 1, dict(keep=0, st=2)), (5, 2, 0, dict()), (5, 2, 1, dict(st=0)),
+            (6, 1, 0, dict()),
+        ]
+        Gs = [(0, 1, 0), (1, 1, 0), (2, 1, 0), (3, 1, 0), (3, 2, 1), (4, 1, 0), (5, 1, 0)]
+    else:
+        T, A, Gs = [], [], []
+    for nmod, st, persist, kw in T:
+        js.append(teardown(nmod, st, persist, **kw))
+    for mode, nmod, persist, kw in A:
+        js.append(autorel(mode, nmod, persist, **kw))
+    for g, bst, loop0 in Gs:
+        js.append(guard(g, bst, loop0))
     return js
 
 
